@@ -230,6 +230,8 @@ async fn handshake_case(c: &HsCase) -> Result<&'static str, Violation> {
         return Err(Violation::new("C12:machinery", "loopback connect failed", json!({})));
     };
     let _ = sock.set_nodelay(true);
+    // thousands of short connections: leave no TIME_WAIT entries behind
+    let _ = sock.set_linger(Some(Duration::ZERO));
     let want_sni = sni.to_string();
     let want_alpn: Vec<Vec<u8>> = alpn.iter().map(|a| a.to_vec()).collect();
     let server = tokio::spawn(async move {
@@ -245,7 +247,11 @@ async fn handshake_case(c: &HsCase) -> Result<&'static str, Violation> {
         let n = s.read(&mut buf).await.map_err(|e| format!("read: {e}"))?;
         s.write_all(&buf[..n]).await.map_err(|e| format!("write: {e}"))?;
         s.flush().await.map_err(|e| format!("flush: {e}"))?;
-        Ok((seen, buf[..n].to_vec()))
+        // let the client close first (it resets: no TIME_WAIT entry is left on either side)
+        let echoed = buf[..n].to_vec();
+        let mut rest = [0u8; 16];
+        let _ = tokio::time::timeout(Duration::from_secs(2), s.read(&mut rest)).await;
+        Ok((seen, echoed))
     });
     // the first flight in pieces, the server running to quiescence in between
     let mut prev = 0;
@@ -324,6 +330,8 @@ async fn handshake_case(c: &HsCase) -> Result<&'static str, Violation> {
             return Err(mk("application-data-corrupted", format!("echo {:?}", String::from_utf8_lossy(&echoed))));
         }
     }
+    // the client goes first (reset: no TIME_WAIT entry on either side); the server then finishes
+    drop(sock);
     let mut sj = Box::pin(server);
     let res = match door::until(&mut sj, Duration::from_secs(5)).await {
         Some(Ok(Ok(x))) => x,
